@@ -16,17 +16,17 @@ type instKey struct {
 func (k instKey) String() string { return fmt.Sprintf("%s/%d", k.s, k.ep) }
 
 type stream struct {
-	key       instKey
-	last      uint64 // last index handed to the FSM (or restored snapshot index)
-	lastCmd   uint64
-	applied   int
-	restores  int
-	payloadAt map[string]uint64
-	prevOf    map[uint64]string // index -> prev value returned by Apply
-	afterRest bool              // a restore happened and no apply since
-	restIdx   uint64
+	key          instKey
+	last         uint64 // last index handed to the FSM (or restored snapshot index)
+	lastCmd      uint64
+	applied      int
+	restores     int
+	payloadAt    map[string]uint64
+	prevOf       map[uint64]string // index -> prev value returned by Apply
+	afterRest    bool              // a restore happened and no apply since
+	restIdx      uint64
 	firstRestIdx uint64 // index of the first snapshot this incarnation's FSM was restored from
-	userBase  uint64 // burned index of the last user restore seen by this stream
+	userBase     uint64 // burned index of the last user restore seen by this stream
 }
 
 type rpcRec struct {
@@ -99,7 +99,7 @@ type server struct {
 	burned                  uint64
 	lastStartSeq            uint64
 	trailing                uint64
-	img       startImg
+	img                     startImg
 	startTerm, startMaxTerm uint64 // durable term / largest reported term when the current incarnation was created
 	installedMax            uint64 // largest index of a snapshot this server installed from a leader
 	electNotCandTerm        uint64 // term of an election this server started while its state was not Candidate
